@@ -128,10 +128,17 @@ fn frexp(s: f64) -> (f64, i16) {
 	if s == 0.0 {
 		(s, 0)
 	} else {
-		let lg = s.abs().log2();
-		let x = (lg - lg.floor() - 1.0).exp2();
-		let exp = lg.floor() + 1.0;
-		(s.signum() * x, exp as i16)
+		// Exact decomposition through the representation, computing it with log2/exp2
+		// is off by one exponent near powers of two and loses mantissa bits.
+		let bits = s.to_bits();
+		let raw_exp = ((bits >> 52) & 0x7ff) as i16;
+		if raw_exp == 0 {
+			// Subnormal: normalize first, 2^64 is exact.
+			let (m, e) = frexp(s * 18_446_744_073_709_551_616.0);
+			return (m, e - 64);
+		}
+		let mantissa = f64::from_bits((bits & !(0x7ff << 52)) | (1022 << 52));
+		(mantissa, raw_exp - 1022)
 	}
 }
 
